@@ -627,7 +627,7 @@ int harness_main(int argc, char **argv, const Harness &h) {
 			}
 			Plan p = gen_plan(prop, tier, cls, run_seed(base, prop, idx));
 			Result r;
-			watchdog(tier == "thorough" ? 90 : 25);	// a run that burns 25 s of CPU (90 s in the thorough tier, whose plans are several times longer), or ten times that in wall time, kills the worker; the driver replays the seed
+			watchdog(tier == "thorough" ? 120 : 60);	// a run that burns 60 s of CPU (120 s in the thorough tier, whose plans are several times longer), or ten times that in wall time, kills the worker; the driver replays the seed. Ordinary runs take well under a second; the margin is for a machine that is paging or otherwise starved (seen in fresh restores)
 			run_inproc(p, false, r);
 			watchdog(0);
 			runs++;
